@@ -210,6 +210,11 @@ def oracle_loaded_vs_files(pcfg, spec, flags):
         if name == 'M':
             items = spec.get('omen_prob') or []
         elif name[0] == 'C' and flags.get('skip_case'):
+            n = int(name[1:])
+            got = [(g['prob'], list(g['values'])) for g in groups]
+            if got != [(1.0, ['L' * n])]:
+                v.append({'property': 'C01', 'kind': 'all-lower-mask-list-not-single-lower-mask', 'variable': name, 'loaded': str(got)[:200]})
+                break
             continue
         else:
             items = spec['terminals'].get(name)
@@ -274,6 +279,19 @@ def oracle_structures_vs_files(pcfg, spec, flags):
         k = next((i for i, (a, b) in enumerate(zip(got, want)) if a != b), min(len(got), len(want)))
         return [{'property': pr, 'kind': 'loaded-base-structures-differ-from-file', 'index': k,
                  'loaded': str(got[k:k + 1]), 'file': str(want[k:k + 1])} for pr in ('C02', 'C01')]
+    # ... and their probabilities: the file's, or under skip_brute the file's divided by 1 - P(first M line) - one factor for all
+    # structures, wherever the M line stands
+    total = 1.0
+    if flags.get('skip_brute'):
+        m = next((float(p) for st, p in spec['grammar'] if st == 'M'), None)
+        if m is not None:
+            total = 1.0 - m
+    wantp = [float(p) / total for st, p in spec['grammar'] if not (st == 'M' and flags.get('skip_brute'))]
+    gotp = [b['prob'] for b in pcfg.base]
+    if [f2h(x) for x in gotp] != [f2h(x) for x in wantp]:
+        k = next((i for i, (a, b) in enumerate(zip(gotp, wantp)) if f2h(a) != f2h(b)), 0)
+        return [{'property': pr, 'kind': 'loaded-base-probability-differs-from-file', 'index': k, 'loaded': repr(gotp[k]), 'file': repr(wantp[k]),
+                 'skip_brute': bool(flags.get('skip_brute'))} for pr in ('C01', 'C14')]
     return []
 
 
